@@ -22,7 +22,7 @@ echo "apply=$r_apply build=$r_build baseline_ok_pkgs=$r_tests baseline_fail_line
 git -C /repo apply $dst/patch.diff || { echo "cannot apply to /repo"; exit 2; }
 declare -A res
 for p in $props; do
-  o=$(cd /verif && bin/check $p --tier quick 2>&1); rc=$?
+  o=$(cd /verif && VERIF_EVIDENCE_DIR=/verif/.work/seed-evidence bin/check $p --tier quick 2>&1); rc=$?
   res[$p]="rc=$rc $(echo "$o" | grep -c '^VIOLATION') violation(s)"
   echo "$o" | grep '^VIOLATION\|signature' | head -6 > $dst/check_$p.log
   echo "check $p: ${res[$p]}"
